@@ -101,11 +101,11 @@ PROPS.update({
 # ---- properties decided (in part) from the mutator / Display / matches contracts --------------------------------
 LID_MUT = [V('langid', r'::LanguageIdentifier::(from_parts|set_variants|clear_variants|has_variant|into_parts)$'),
            V('langid', r'::lemma_(sorted_dedup_variants|variants_\w+)$')]
-LOC_MUT = [V('locale', r'::UnicodeExtensionList::(is_empty|remove_keyword|clear_keywords|clear_attributes|has_attribute|set_attribute|remove_attribute)$'),
-           V('locale', r'::TransformExtensionList::(is_empty|tlang|set_tlang|clear_tlang|remove_tfield|clear_tfields)$'),
+LOC_MUT = [V('locale', r'::UnicodeExtensionList::(is_empty|set_keyword|remove_keyword|clear_keywords|clear_attributes|has_attribute|set_attribute|remove_attribute)$'),
+           V('locale', r'::TransformExtensionList::(is_empty|tlang|set_tlang|clear_tlang|set_tfield|remove_tfield|clear_tfields)$'),
            V('locale', r'::PrivateExtensionList::(is_empty|clear_tags|has_tag|add_tag|remove_tag)$'),
            V('locale', r'::ExtensionsMap::is_empty$'),
-           V('locale', r'::(unicode::lemma_\w+|vspec::lemma_(kv_wf_\w+|insert_multiset|map_values_multiset|texts_\w+|strict_sorted_\w+|weak_sorted_\w+|sorted_\w+|tiny_text\w*|lower_props))$')]
+           V('locale', r'::(unicode::lemma_\w+|vspec::lemma_(kv_wf_\w+|fmc_utype|insert_multiset|map_values_multiset|texts_\w+|strict_sorted_\w+|weak_sorted_\w+|sorted_\w+|tiny_text\w*|lower_props))$')]
 LID_DISPLAY = [V('langid', r'::(Language|Script|Region|Variant|LanguageIdentifier)::fmt$'), V('langid', r'::lemma_dash_join_push$'),
                V('langid', r'::canonicalize$'), V('langid', r'::LanguageIdentifier::lemma_wf_view$')]
 LOC_DISPLAY = [V('locale', r'::(PrivateExtensionList|UnicodeExtensionList|TransformExtensionList|ExtensionsMap|Locale)::fmt$'),
